@@ -243,13 +243,18 @@ func checkC18(c CaseC18) error {
 
 // c18Model compares a result for RT[i] with the reference model of the configured extension.
 func c18Model(c CaseC18, i int, got rgen.NRealtime) error {
-	switch c.Ext.Kind {
+	return rtModel(c.Ext, c.Zone, c.RT[i], got)
+}
+
+// rtModel compares a result with the reference model of the configured extension (for conflict-free messages).
+func rtModel(ext ExtSpec, zone string, m *rgen.Msg, got rgen.NRealtime) error {
+	switch ext.Kind {
 	case "nycttrips":
-		return compareC16(got, CaseC16{Zone: c.Zone, Msg: c.RT[i], Opts: c.Ext.Trips})
+		return compareC16(got, CaseC16{Zone: zone, Msg: m, Opts: ext.Trips})
 	case "nyctalerts":
-		return compareC17(got, CaseC17{Zone: c.Zone, Msg: c.RT[i], Opts: c.Ext.Alerts})
+		return compareC17(got, CaseC17{Zone: zone, Msg: m, Opts: ext.Alerts})
 	default:
-		return rgen.Compare(got, rgen.Expect(c.RT[i], c.Zone, rgen.ExpectOpts{}))
+		return rgen.Compare(got, rgen.Expect(m, zone, rgen.ExpectOpts{}))
 	}
 }
 
